@@ -158,6 +158,11 @@ def judge(src: str, ops, lexer, tokenizer, meta) -> list:
                 if got != ('-' if t.string == marker else t.string):
                     out.append((['source-map', token_kind(t.string) if t.string.strip() else 'whitespace'] + meta['sig'], f'{src!r}: token {t.string!r} map {tuple(t.source_map)} addresses {got!r}'))
                     break
+        # the very same str object lexed again (a tool that tokenizes a file twice): same tokens, same spans
+        raw2 = lexer.parse_impl(src)
+        if [(t.string, tuple(t.source_map)) for t in raw2] != [(t.string, tuple(t.source_map)) for t in raw]:
+            i = next((j for j in range(min(len(raw), len(raw2))) if (raw[j].string, tuple(raw[j].source_map)) != (raw2[j].string, tuple(raw2[j].source_map))), min(len(raw), len(raw2)))
+            out.append((['second-pass-differs'] + meta['sig'], f'{src!r}: lexed a second time, token #{i} is {(raw2[i].string, tuple(raw2[i].source_map)) if i < len(raw2) else None!r}, the first pass gave {(raw[i].string, tuple(raw[i].source_map)) if i < len(raw) else None!r}'))
     except BaseException as e:  # noqa
         out.append((['raw-raises', type(e).__name__] + meta['sig'], f'Lexer.parse_impl({src!r}) raised {type(e).__name__}: {e}'))
         return out
@@ -245,7 +250,7 @@ def render(lines, unit: str, rewrites=(), final_newline=True) -> str:
     for i, (d, text) in enumerate(lines):
         for r in rw.get(i, []):
             if r[0] == 'comment-line':
-                out.append(unit * r[2] + '# c')
+                out.append(unit * r[2] + (r[3] if len(r) > 3 else '# c'))
             elif r[0] == 'blank':
                 out.append('')
             elif r[0] == 'ws-line':
@@ -255,14 +260,15 @@ def render(lines, unit: str, rewrites=(), final_newline=True) -> str:
         for r in rw.get(i, []):
             if r[0] == 'eol-comment':
                 first, *rest = t.split('\n')
-                t = '\n'.join([first + ' # c'] + rest) if not rest else '\n'.join([first + ' # c'] + rest)
+                ctext = r[2] if len(r) > 2 else ' # c'
+                t = '\n'.join([first + ctext] + rest)
             elif r[0] == 'trailing-space':
                 t = t + '  '
             elif r[0] == 'trailing-tab':
                 t = t + '\t'
             elif r[0] == 'bracket-comment' and '\n' in t:
                 first, *rest = t.split('\n')
-                t = '\n'.join([first, unit * d + '# c'] + rest)
+                t = '\n'.join([first, unit * d + (r[2] if len(r) > 2 else '# c')] + rest)
             elif r[0] == 'bracket-blank' and '\n' in t:
                 first, *rest = t.split('\n')
                 t = '\n'.join([first, ''] + rest)
@@ -270,7 +276,7 @@ def render(lines, unit: str, rewrites=(), final_newline=True) -> str:
     n = len(lines)
     for r in rw.get(n, []):
         if r[0] == 'comment-line':
-            out.append(unit * r[2] + '# c')
+            out.append(unit * r[2] + (r[3] if len(r) > 3 else '# c'))
         elif r[0] == 'blank':
             out.append('')
         elif r[0] == 'ws-line':
@@ -284,14 +290,20 @@ def single_rewrites(lines):
     for pos in range(0, n + 1):
         for ind in range(0, maxd + 1):
             yield ('comment-line', pos, ind)
+        # a comment without text (a bare '#' directly before the line end) and one made of '#' only
+        yield ('comment-line', pos, 0, '#')
+        yield ('comment-line', pos, min(1, maxd), '##')
         yield ('blank', pos)
         yield ('ws-line', pos, 1)
     for pos in range(n):
         yield ('eol-comment', pos)
+        yield ('eol-comment', pos, ' #')
+        yield ('eol-comment', pos, '#')
         yield ('trailing-space', pos)
         yield ('trailing-tab', pos)
         if '\n' in lines[pos][1]:
             yield ('bracket-comment', pos)
+            yield ('bracket-comment', pos, '#')
             yield ('bracket-blank', pos)
 
 
